@@ -5,8 +5,8 @@
 #include "oracle.h"
 
 enum { L_REIM, L_CPLX };
-enum { I_NATIVE, I_GENERIC, I_REF_DIRECT, I_AVX_DIRECT, I_BFS_REF, I_REC_REF, I_LEAF_REF, I_LEAF_AVX, I_BUILTIN_BUF, N_IMPL };
-static const char* impl_name[] = {"dispatch-native", "dispatch-generic", "ref-direct", "avx2-direct", "bfs16-ref", "rec16-ref", "leaf-ref", "leaf-avx", "builtin-buffers"};
+enum { I_NATIVE, I_GENERIC, I_REF_DIRECT, I_AVX_DIRECT, I_BFS_REF, I_REC_REF, I_LEAF_REF, I_LEAF_AVX, I_BUILTIN_BUF, I_NAIVE, N_IMPL };
+static const char* impl_name[] = {"dispatch-native", "dispatch-generic", "ref-direct", "avx2-direct", "bfs16-ref", "rec16-ref", "leaf-ref", "leaf-avx", "builtin-buffers", "naive"};
 enum { X_RANDOM, X_IMPULSE, X_CONSTANT, X_RESONANT, X_DYNRANGE, X_INTEGER, X_TINY, X_HUGE, N_XFAM };
 static const char* xfam_name[] = {"random", "impulse", "constant", "resonant", "dynrange", "integer50", "scale2^-900", "scale2^+900"};
 
@@ -118,6 +118,16 @@ static int run_impl(int layout, int impl, int inverse, uint64_t m, double* buf, 
       }
       return 1;
     }
+    case I_NAIVE:
+      // the library's own table-free recursive transforms (exported; the suite uses them as its reference)
+      if (layout == L_REIM) {
+        if (inverse) reim_naive_ifft(m, 0.25, re, im);
+        else reim_naive_fft(m, 0.25, re, im);
+      } else {
+        if (inverse) cplx_ifft_naive((uint32_t)m, 0.25, (CPLX*)buf);
+        else cplx_fft_naive((uint32_t)m, 0.25, (CPLX*)buf);
+      }
+      return 1;
     case I_BUILTIN_BUF: {
       // a table created with two built-in buffers: the data is transformed inside buffer 0 and buffer 1, then once
       // more in the caller's buffer; all three must agree bit for bit (the buffers must not overlap the twiddles)
